@@ -2,6 +2,7 @@ SPECIFICATION Spec
 CONSTANTS
   ClosesPipeOnBuildError = TRUE
   ClosesFilesOnParamsError = TRUE
+  CopyMarksEndSeen = FALSE
   CancelsBeforeClose = TRUE
   ClosesFilesOnFieldError = TRUE
   FileLen = 2
